@@ -55,19 +55,20 @@ def gather(prop, cfgs, only=None):
                 continue
             if only and not re.search(only, '%s %s %s %s' % (c.family, fn['name'], fn.get('owner'), ' '.join(p['ctype'] for p in fn['params']))):
                 continue
-            try:
-                ob = P.build_obligation(prop, cfg, db, fn, c)
-            except (P.tu.ExtractionError, P.cxx2c.Abort) as e:
-                problems.append('%s: %s: %s' % (cfg, cn, e))
-                continue
-            if ob.missing_models:
-                problems.append('%s: %s (%s): missing instruction model(s): %s' % (cfg, fn['name'], cn, ' '.join(ob.missing_models)))
-                continue
             n += 1
-            if ob.key in obs:
-                obs[ob.key].cfgs.append(cfg)
-            else:
-                obs[ob.key] = ob
+            for cpart in c.split():
+                try:
+                    ob = P.build_obligation(prop, cfg, db, fn, cpart)
+                except (P.tu.ExtractionError, P.cxx2c.Abort) as e:
+                    problems.append('%s: %s: %s' % (cfg, cn, e))
+                    break
+                if ob.missing_models:
+                    problems.append('%s: %s (%s): missing instruction model(s): %s' % (cfg, fn['name'], cn, ' '.join(ob.missing_models)))
+                    break
+                if ob.key in obs:
+                    obs[ob.key].cfgs.append(cfg)
+                else:
+                    obs[ob.key] = ob
         # functions that match a family of this property but failed to extract are problems, not silence
         for cn, fn in db['functions'].items():
             if fn.get('error') and fn.get('name') and families.name_in_property(fn.get('name'), prop):
